@@ -91,12 +91,13 @@ Qed.
 
 Lemma fabric_eqb_eq : forall a b, fabric_eqb a b = true <-> a = b.
 Proof.
-  intros [i1 r1 n1 k1 a1] [i2 r2 n2 k2 a2]. unfold fabric_eqb. cbn [f_idx f_root f_nid f_key f_acl].
+  intros [i1 r1 n1 k1 a1 l1 v1] [i2 r2 n2 k2 a2 l2 v2]. unfold fabric_eqb.
+  cbn [f_idx f_root f_nid f_key f_acl f_label f_vid].
   split; intro H.
   - repeat (apply andb_true_iff in H; destruct H as [H ?]).
     apply N.eqb_eq in H. repeat match goal with X : (_ =? _) = true |- _ => apply N.eqb_eq in X end.
     match goal with X : list_eqb _ _ = true |- _ => apply list_eqb_eq in X end. congruence.
-  - inversion H; subst. rewrite !N.eqb_refl. cbn. apply list_eqb_eq. reflexivity.
+  - inversion H; subst. rewrite !N.eqb_refl. rewrite !andb_true_r. cbn. apply list_eqb_eq. reflexivity.
 Qed.
 
 Lemma ofabric_eqb_eq : forall a b, ofabric_eqb a b = true <-> a = b.
